@@ -128,6 +128,9 @@ class TcpConnection : noncopyable,
   // void shutdownAndForceCloseInLoop(double seconds);
   void forceCloseInLoop();
   void setState(StateE s) { state_ = s; }
+  // kConnected/kDisconnecting -> kDisconnecting in one atomic step, on any
+  // thread; false if the connection is already down (or not yet up)
+  bool markDisconnecting();
   const char* stateToString() const;
   void startReadInLoop();
   void stopReadInLoop();
